@@ -4,7 +4,7 @@ import traceback
 
 from . import base
 
-MODULES = ['flags', 'chain', 'core', 'globc', 'matchc', 'walkc', 'more', 'fsmatch', 'small']
+MODULES = ['flags', 'chain', 'core', 'globc', 'matchc', 'walkc', 'more', 'fsmatch', 'small', 'iterc']
 
 
 def all_contracts():
